@@ -322,7 +322,7 @@ def run(ctx):
     lib.stage_proof(ctx, PROP_FILES, ['Check/C01.vo'])
 
     # ---- 1. correspondence: integer-valued cases, model evaluated inside Coq
-    n_corr = 40 if quick else 400
+    n_corr = 40 if quick else 800
     cases, metas = [], []
     for fn in OPS:
         for k in range(n_corr):
@@ -361,7 +361,7 @@ def run(ctx):
                                    [dict(m, desc=m, tags={'op': m['op']}) for m in metas], on_disagree=search, show_fn='run_C01')
 
     # ---- 2. numerical side check against the dense oracle (float64 / complex128)
-    n_side = 60 if quick else 1500
+    n_side = 60 if quick else 4500
     if bad:
         n_side *= 5          # widened search when the tie is broken
     for fn in OPS + SIDE_ONLY:
